@@ -345,7 +345,16 @@ def r2_functions(program, folder, rep, eths):
                             same(poly(gt[3]), size) and \
                             poly(gt[2]) == v + d + r:
                         ok = True
-        if not ok and not (gt[0] == "binop" and gt[1] == "Mod"):
+        def _has_mod(t_):
+            for st_ in subterms(t_):
+                if st_[0] == "binop" and st_[1] == "Mod":
+                    try:
+                        if same(poly(st_[3]), size):
+                            return True
+                    except AnalysisError:
+                        pass
+            return False
+        if not ok and not _has_mod(gt):
             # another scheme altogether (e.g. a sweep from one cell below
             # the root, filtered by the bounds): not a form this rule reads
             raise AnalysisError("spinn5_eth_coords: the yielded %s "
